@@ -319,21 +319,16 @@ def parentMap (a : Attribute) (numPoints : Nat) (pointIds : Array Nat) : R (Arra
     out := out.push (← rd "value_to_value_map" vtv (← mappedIndex m p))
   pure out
 
-/-- `SequentialIntegerAttributeEncoder::EncodeValues` with a mesh prediction scheme.
-    `nc` = components of the portable values; `numValues` = `attribute()->size()`. -/
-def encodeIntegerValuesEb (ch : EbChoices) (o : EncOpts) (attId kind nc numValues : Nat) (scheme : PScheme)
-    (md : MeshData) (pointIds : Array Nat) (parent : Option ParentAtt) (portable : Array Int) :
-    R (PScheme × Bytes) := do
-  if numValues == 0 then return (scheme, [])
-  let level := symbolLevel o.speed
-  -- value ranges the wrap transform cannot represent drop the prediction (`fix:` commit)
-  let scheme :=
-    if scheme != .none && portable.size > 0 then
-      match Wrap.dataBounds portable.toList with
-      | some (mn, mx) => if mx - mn ≥ 2 ^ 31 - 1 then PScheme.none else scheme
-      | none => scheme
-    else scheme
-  -- SetPredictionSchemeParentAttributes
+/-- value ranges the wrap transform cannot represent drop the prediction (`fix:` commit) -/
+def effectiveScheme (scheme : PScheme) (portable : Array Int) : PScheme :=
+  if scheme != .none && portable.size > 0 then
+    match Wrap.dataBounds portable.toList with
+    | some (mn, mx) => if mx - mn ≥ 2 ^ 31 - 1 then PScheme.none else scheme
+    | none => scheme
+  else scheme
+
+/-- `SetPredictionSchemeParentAttributes`: the position source of the schemes with a parent attribute -/
+def encParentSource (scheme : PScheme) (pointIds : Array Nat) (parent : Option ParentAtt) : R PosSource := do
   let mut pos : PosSource := { pointIds := #[], map := #[], values := #[] }
   if scheme.needsParent then
     match parent with
@@ -345,10 +340,19 @@ def encodeIntegerValuesEb (ch : EbChoices) (o : EncOpts) (attId kind nc numValue
         if isIntegralType p.dataType then throw (.unsupported "prediction from a position attribute without a portable form")
         else throw .fail
       pos := { pointIds, map := p.map, values := p.values }
-  let body := fun (syms : List Nat) =>
-    match encodeSymbolBody ch.seq level o.builtin attId nc syms with
-    | none => throw Err.fail
-    | some b => (pure b : R Bytes)
+  pure pos
+
+/-- the coded symbols of `EncodeValues` -/
+def symbolBodyR (ch : EbChoices) (o : EncOpts) (attId nc : Nat) (syms : List Nat) : R Bytes :=
+  match encodeSymbolBody ch.seq (symbolLevel o.speed) o.builtin attId nc syms with
+  | none => throw Err.fail
+  | some b => pure b
+
+/-- the value block of `EncodeValues` for the scheme `scheme`: method (and transform) byte, coded corrections,
+    `EncodePredictionData` -/
+def encodeSchemeBlock (ch : EbChoices) (o : EncOpts) (attId kind nc : Nat) (scheme : PScheme)
+    (md : MeshData) (pos : PosSource) (portable : Array Int) : R Bytes := do
+  let body := symbolBodyR ch o attId nc
   let finish := finishBits ch.conn
   let m8 := toUnsigned 8 scheme.method
   let wrapByte := toUnsigned 8 Generated.PREDICTION_TRANSFORM_WRAP
@@ -356,7 +360,7 @@ def encodeIntegerValuesEb (ch : EbChoices) (o : EncOpts) (attId kind nc numValue
   match scheme with
   | .none =>
     let b ← body (portable.toList.map (toSymbol 32))
-    pure (scheme, m8 :: b)
+    pure (m8 :: b)
   | .geometricNormalWrap => throw (.unsupported "geometric normal prediction with the wrap transform")
   | .geometricNormal | .delta =>
     if kind == 3 then
@@ -368,40 +372,71 @@ def encodeIntegerValuesEb (ch : EbChoices) (o : EncOpts) (attId kind nc numValue
         if scheme == .delta then
           let corr := deltaEncodeOcta ot portable
           let b ← body (corr.toList.map (toUnsigned 32))
-          pure (scheme, m8 :: octaByte :: (b ++ Octa.encodeTransformData ot))
+          pure (m8 :: octaByte :: (b ++ Octa.encodeTransformData ot))
         else
           let (corr, flips) ← geometricNormalEncode md pos ot portable
           let b ← body (corr.toList.map (toUnsigned 32))
           let fe := flips.foldl (fun e f => e.encodeBit f) RAnsBitEnc.start
-          pure (scheme, m8 :: octaByte :: (b ++ Octa.encodeTransformData ot ++ finish fe))
+          pure (m8 :: octaByte :: (b ++ Octa.encodeTransformData ot ++ finish fe))
     else
       match wrapInitOf portable with
       | none => throw .fail
       | some wt =>
         let corr ← deltaEncodeWrap wt nc portable
         let b ← body (corr.toList.map (toSymbol 32))
-        pure (scheme, m8 :: wrapByte :: (b ++ Wrap.encodeTransformData wt))
+        pure (m8 :: wrapByte :: (b ++ Wrap.encodeTransformData wt))
   | .parallelogram =>
     match wrapInitOf portable with
     | none => throw .fail
     | some wt =>
       let corr ← parallelogramEncode md wt nc portable
       let b ← body (corr.toList.map (toSymbol 32))
-      pure (scheme, m8 :: wrapByte :: (b ++ Wrap.encodeTransformData wt))
+      pure (m8 :: wrapByte :: (b ++ Wrap.encodeTransformData wt))
   | .constrainedMulti =>
     match wrapInitOf portable with
     | none => throw .fail
     | some wt =>
       let (corr, isCrease) ← constrainedMultiEncode md wt nc (ch.crease attId) portable
       let b ← body (corr.toList.map (toSymbol 32))
-      pure (scheme, m8 :: wrapByte :: (b ++ encodeCreaseFlags finish isCrease ++ Wrap.encodeTransformData wt))
+      pure (m8 :: wrapByte :: (b ++ encodeCreaseFlags finish isCrease ++ Wrap.encodeTransformData wt))
   | .texCoords =>
     match wrapInitOf portable with
     | none => throw .fail
     | some wt =>
       let (corr, orient) ← texCoordsEncode md pos wt nc portable
       let b ← body (corr.toList.map (toSymbol 32))
-      pure (scheme, m8 :: wrapByte :: (b ++ encodeOrientations finish orient ++ Wrap.encodeTransformData wt))
+      pure (m8 :: wrapByte :: (b ++ encodeOrientations finish orient ++ Wrap.encodeTransformData wt))
+
+/-- `SequentialIntegerAttributeEncoder::EncodeValues` with a mesh prediction scheme.
+    `nc` = components of the portable values; `numValues` = `attribute()->size()`.
+    (Composition of `effectiveScheme`, `encParentSource`, `encodeSchemeBlock`.) -/
+def encodeIntegerValuesEb (ch : EbChoices) (o : EncOpts) (attId kind nc numValues : Nat) (scheme : PScheme)
+    (md : MeshData) (pointIds : Array Nat) (parent : Option ParentAtt) (portable : Array Int) :
+    R (PScheme × Bytes) := do
+  if numValues == 0 then return (scheme, [])
+  let scheme := effectiveScheme scheme portable
+  let pos ← encParentSource scheme pointIds parent
+  let bs ← encodeSchemeBlock ch o attId kind nc scheme md pos portable
+  pure (scheme, bs)
+
+instance : Inhabited MeshData := ⟨⟨⟨#[], #[], #[], #[], false, 0⟩, #[], #[]⟩⟩
+
+/-- one call of `encodeIntegerValuesEb` during the encode: its arguments and its result -/
+structure ValueBlock where
+  /-- index of the controller (attribute encoder) -/
+  ctrl : Nat
+  attId : Nat
+  kind : Nat
+  nc : Nat
+  numValues : Nat
+  scheme : PScheme
+  md : MeshData
+  pointIds : Array Nat
+  parent : Option ParentAtt
+  portable : Array Int
+  outScheme : PScheme
+  bytes : Bytes
+deriving Inhabited
 
 /-- the result of the whole encode -/
 structure Encoded where
@@ -414,6 +449,8 @@ structure Encoded where
   outs : Array AttOut
   /-- point ids / data-to-corner map of every controller (by controller index) -/
   seqs : Array SeqOut
+  /-- the value blocks of the integer / quantization / normal encoders, in stream order -/
+  blocks : Array ValueBlock := #[]
   /-- `num_encoded_points()` / `num_encoded_faces()` as `ComputeNumberOfEncoded…` set them -/
   numEncodedPoints : Nat
   numEncodedFaces : Nat
@@ -518,6 +555,7 @@ def encodeEdgebreaker (ch : EbChoices) (g : Geometry) (md : Option GeometryMetad
   let baseView := t.view
   let mut outs : Array AttOut := Array.replicate atts.size { attId := 0, kind := 0, scheme := .none, valueBytes := [] }
   let mut seqs : Array SeqOut := Array.replicate cs.size default
+  let mut blocks : Array ValueBlock := #[]
   let mut parent : Option ParentAtt := none
   for e in order do
     let c := cs[e]!
@@ -580,6 +618,8 @@ def encodeEdgebreaker (ch : EbChoices) (g : Geometry) (md : Option GeometryMetad
         let nc := if s.kind == 3 then 2 else a.numComponents
         let (sch, vb) ← encodeIntegerValuesEb ch o.base s.attId s.kind nc a.numValues s.scheme mdata seq.pointIds parent portable
         bytes := bytes ++ vb
+        blocks := blocks.push { ctrl := e, attId := s.attId, kind := s.kind, nc, numValues := a.numValues, scheme := s.scheme,
+                                md := mdata, pointIds := seq.pointIds, parent, portable, outScheme := sch, bytes := vb }
         outs := outs.set! s.attId { attId := s.attId, kind := s.kind, scheme := sch, portable, valueBytes := vb,
                                     transformBytes := trBytes[k]! }
     -- EncodeDataNeededByPortableTransforms
@@ -589,7 +629,7 @@ def encodeEdgebreaker (ch : EbChoices) (g : Geometry) (md : Option GeometryMetad
   let usedTables : Array AttConn := (cs.toList.filterMap fun c =>
     if c.onAttTable && c.attDataId ≥ 0 then some (conn.atts[c.attDataId.toNat]!).conn else none).toArray
   let numEncodedPoints ← computeNumberOfEncodedPoints atts conn usedTables
-  pure { bytes := header ++ mdBytes ++ [coder] ++ conn.bytes ++ bytes, conn, controllers := cs, order, outs, seqs,
+  pure { bytes := header ++ mdBytes ++ [coder] ++ conn.bytes ++ bytes, conn, controllers := cs, order, outs, seqs, blocks,
          numEncodedPoints, numEncodedFaces }
 
 /-- **CTIso**: the decoder's corner table (`dc2v`, `dopp`, `numFaces` faces) is isomorphic to the
